@@ -542,14 +542,15 @@ class Generator:
                     u.extraction.append("fn %s: %s [%s]: anchor text NOT FOUND in the current tree; real text left in place" % (fid, kind, label))
                     u.missing_outlines.append("%s/%s" % (fid, label))
                     continue
-                if len(hits) != 1:
+                every = label.rstrip().endswith("(every occurrence)")
+                if len(hits) != 1 and not every:
                     raise LostAnchor("fn %s: %s '%s' anchor text found %d times: %s" % (
                         fid, kind, label, len(hits), norm(atext)[:120]))
-                a, b = hits[0]
                 wtext = "\n".join(wbuf).strip("\n")
-                rk, wrapped = self._region(u, kind, fid, label, wtext)
-                edits.append((toks[a].start, toks[b].end - toks[a].start, wrapped))
-                u.extraction.append("fn %s: %s [%s]: `%s` => `%s`" % (fid, kind, label, norm(atext), norm(wtext)))
+                for (a, b) in hits:
+                    rk, wrapped = self._region(u, kind, fid, label, wtext)
+                    edits.append((toks[a].start, toks[b].end - toks[a].start, wrapped))
+                u.extraction.append("fn %s: %s [%s]%s: `%s` => `%s`" % (fid, kind, label, (" x%d" % len(hits)) if every else "", norm(atext), norm(wtext)))
         else:
             if f.loops or f.ats or f.outlines:
                 raise TemplateError("fn %s has no body but loop/at/outline sections" % fid)
